@@ -348,6 +348,10 @@ class DynGraph(nx.Graph):
             raise nx.NetworkXError(
                 "The t argument must be specified.")
 
+        if self.has_edge(u, v) and (t[0] if isinstance(t, list) else t) < self._adj[u][v]['t'][-1][0]:
+            raise ValueError("The specified interaction extension is broader than "
+                             "the ones already present for the given nodes.")
+
         if u not in self._node:
             self._adj[u] = self.adjlist_inner_dict_factory()
             self._node[u] = {}
